@@ -311,6 +311,7 @@ func c13RequestObjects(c *run.Ctx) {
 				return world.RawJWT(map[string]interface{}{"alg": "RS256", "kid": "k0"}, cl, p[2])
 			}(), ""},
 			{"short-state-inside-object", world.SignJWT(keys.ClientRSA[0], "RS256", map[string]interface{}{"kid": "k0"}, func() map[string]interface{} { m := claims(); m["state"] = "x"; return m }()), "short-state"},
+			{"valid-object-then-later-error", world.SignJWT(keys.ClientRSA[0], "RS256", map[string]interface{}{"kid": "k0"}, func() map[string]interface{} { m := claims(); m["scope"] = "openid not-registered-scope"; return m }()), "later-error"},
 			{"garbage", "not.a.jwt", ""},
 			{"expired-object", world.SignJWT(keys.ClientRSA[0], "RS256", map[string]interface{}{"kid": "k0"}, func() map[string]interface{} { m := claims(); m["exp"] = time.Now().Add(-time.Hour).Unix(); return m }()), "expired"},
 		}
@@ -343,6 +344,18 @@ func c13RequestObjects(c *run.Ctx) {
 						mayHonour, why = false, "not-signed-by-registered-key"
 					case v.signedBy == "expired":
 						mayHonour, why = false, "expired-object"
+					case v.signedBy == "later-error":
+						// signature and registration are fine (where they are), the request then fails scope validation: nothing is
+						// honoured, and a redirected error echoes the state the request carries - the one inside the object
+						mayHonour, why = false, "later-validation-error"
+						if out.Err != nil && (out.Kind == "redirect" || out.Kind == "form_post") && client == "ro" && via != "request_uri-unregistered" && via != "request_uri-case-variant" &&
+							(regAlg == "" || regAlg == "RS256") {
+							c.Count("c13_object_state_on_error_checked", 1)
+							if got := out.Params.Get("state"); got != "object-state-0123456789" {
+								c.Violate(run.Violation{Kind: "state-not-echoed", Key: "state-not-echoed request-object state on a redirected error", Detail: fmt.Sprintf("the request object carried state %q, the redirected %s error echoes %q", "object-state-0123456789", out.ErrName, got),
+									History: []string{q.Encode(), out.Location}})
+							}
+						}
 					case v.signedBy == "short-state":
 						// properly signed, but the state it carries is shorter than the configured minimum: the request is not acceptable
 						mayHonour, why = false, "state-below-minimum-inside-object"
